@@ -13,6 +13,7 @@ import GldapModel.Directory.BindSession
 import GldapModel.Directory.StoreSession
 import Driver.ServerReplay
 import GldapModel.Gldap.Addr
+import GldapModel.Gldap.Filter
 /-! `gmodel`: one line in, one line out. The Go harness feeds the same cases to the real
     gldap and to this driver and diffs the two output streams. -/
 open Ber Gldap Driver
@@ -30,9 +31,17 @@ def doBer (bs : Bytes) : String :=
   | none, none => "err"
   | _, _ => "unmodelled"
 
+/-- go-ldap's `DecompileFilter` is part of the model (`Gldap/Filter.lean`): the answer of the real function that the
+    harness still sends along with every case is ignored, so every stream that reaches a search filter compares the
+    model's decompiled string with the implementation's -/
+def modelDecompile (_supplied : Option Bytes) : Node → Option Bytes :=
+  Filter.decompile Generated.filterDNAttrsDecoded
+def modelDecompileT (_supplied : List (Bytes × Option Bytes)) : Node → Option Bytes :=
+  Filter.decompile Generated.filterDNAttrsDecoded
+
 /-- `decode <hex> <decompiled filter hex | !>` -/
 def doDecode (bs : Bytes) (dec : Option Bytes) : String :=
-  let mk (ext) : Env := { ext := ext, decompile := fun _ => dec }
+  let mk (ext) : Env := { ext := ext, decompile := modelDecompile dec }
   let a := serveFrame (mk extTrue) Generated.guards bs
   let b := serveFrame (mk extFalse) Generated.guards bs
   if a == b then renderOutcome renderMsg a else "unmodelled"
@@ -133,7 +142,7 @@ def nonAsciiCriteria (regs : List (Reg Nat)) : Bool :=
 
 def doMux (regs : List (Reg Nat)) (bs : Bytes) (dec : Option Bytes) : String :=
   if nonAsciiCriteria regs then "unmodelled" else
-  let env : Env := { ext := extTrue, decompile := fun _ => dec }
+  let env : Env := { ext := extTrue, decompile := modelDecompile dec }
   match serveFrame env Generated.guards bs with
   | .ok msg =>
     match msg with
@@ -407,7 +416,7 @@ def doSession (mode : String) (regs : List (Reg Nat)) (scripts : List (List Sess
   if nonAsciiCriteria regs then "unmodelled" else
   let cfg : Session.Cfg := { regs := regs, script := fun k _ => scripts.getD k [] }
   let run (ext) : List Bytes × Session.Ending × List (Nat × Int) :=
-    let env : Env := { ext := ext, decompile := fun n => (ftab.find? (fun e => e.1 == ser n)).bind (·.2) }
+    let env : Env := { ext := ext, decompile := modelDecompileT ftab }
     let fuel := input.length + 1
     let r := Session.session env Generated.refusalTable Generated.guards cfg fuel input
     let calls := (Session.sessionMsgs env Generated.guards fuel input).flatMap (Session.callsFor Generated.refusalTable cfg)
@@ -518,7 +527,7 @@ def handle (line : String) : String :=
       let dctls : List Control := if c then [.str [49, 46, 50, 46, 51, 46, 52] false [118]] else []
       let d : Directory.Dir := { store := { users := us, groups := gs, userDN := ud, groupDN := gd }, allowAnon := a, dctls := dctls }
       let run (ext) : List Bytes × Session.Ending × Directory.Dir :=
-        let env : Env := { ext := ext, decompile := fun n => (ftab.find? (fun e => e.1 == ser n)).bind (·.2) }
+        let env : Env := { ext := ext, decompile := modelDecompileT ftab }
         Directory.dirSession env Generated.refusalTable Generated.guards d (input.length + 1) input
       if run extTrue != run extFalse then "unmodelled" else
       let r := run extTrue
